@@ -32,7 +32,7 @@ def bdir(flavour):
 
 
 def libdir(flavour):
-    return os.path.join(bdir(flavour), 'src')
+    return os.path.join(bdir(flavour), 'inst')
 
 
 class _Lock:
@@ -87,6 +87,14 @@ def build_lib(flavour, sync=True):
         dt = time.time() - t
         if dt > 5:
             log('library', flavour, 'built in %.0fs' % dt)
+        # publish atomically: processes that start while ninja relinks must never see a half-written library
+        built = os.path.join(b, 'src', LIBNAME)
+        inst = os.path.join(libdir(flavour), LIBNAME)
+        os.makedirs(libdir(flavour), exist_ok=True)
+        if not os.path.exists(inst) or os.path.getmtime(inst) < os.path.getmtime(built):
+            tmp = inst + '.tmp%d' % os.getpid()
+            shutil.copy2(built, tmp)
+            os.replace(tmp, inst)
     return os.path.join(libdir(flavour), LIBNAME)
 
 
@@ -105,7 +113,7 @@ def build_driver(flavour, name, sources, extra_flags='', extra_link=''):
     os.makedirs(odir, exist_ok=True)
     out = os.path.join(odir, name)
     hdrs = glob.glob(os.path.join(VERIF, 'drivers', '*.hpp'))
-    incs = '-I%s/src -I%s/src -I%s/drivers' % (SRC, bdir(flavour), VERIF)
+    incs = '-I%s/src -I%s/src -I%s/drivers' % (SRC, bdir(flavour), VERIF)   # config headers live in <build>/src
     # the library's public/internal headers may have changed: key objects on a digest of lib mtime
     with _Lock('d-' + flavour + '-' + name):
         objs = []
